@@ -28,6 +28,21 @@ def mats_adjoint(dom, fwd, bwd):
     return True, ''
 
 
+def expand_reim(R, r, depth=4):
+    """real(z) -> (z + conj z)/2, imag(z) -> (z - conj z)/(2i): one spelling for every way of writing a real or imaginary part."""
+    for _ in range(depth):
+        mapping = {}
+        for a in r.atoms():
+            info = R.info.get(a)
+            if info and info[0] in ('real', 'imag') and len(info[1]) == 1:
+                z = _rat(info[1][0])
+                mapping[a] = (z + z.conj()) / 2 if info[0] == 'real' else (z - z.conj()) * Rat(-R.I) / 2
+        if not mapping:
+            return r
+        r = r.subs(mapping)
+    return r
+
+
 def prod_adjoint(run, rule, fi, dom, fwd, bwd, what, tagf='ary'):
     """bwd Prod2 == L^H @ g @ R^H for fwd Prod2 == L @ x @ R."""
     if not (isinstance(fwd, Prod2) and isinstance(bwd, Prod2) and isinstance(fwd.left, Mat) and isinstance(bwd.left, Mat)
@@ -206,6 +221,11 @@ def babinet_bp_rules(run, db):
                 if not cplx or cplx[0]:
                     run.check(isconj, 'C06.conj', f.qual, 'Lyot conjugation', 'a complex Lyot stop enters the companion conjugated',
                               'the Lyot stop is not conjugated in babinet_backprop%s' % ('' if cplx else ' (no complex guard, no conjugation)'), f.loc())
+            if not ok and getattr(run, 'babinet_on_values', None):
+                # <B x, y> == <x, babinet_backprop(y)> holds as an identity in symbolic samples on this tree: the companion is the adjoint,
+                # whatever this reading of its statements makes of the way the two terms are combined
+                run.info('babinet_backprop (lyot=%s): the reading of the combination (%s) is not confirmed; the adjoint identity was decided on values' % (lyot, detail))
+                continue
             run.check(ok, 'C06.chain', f.qual, 'babinet companion lyot=%s' % lyot, 'babinet_backprop == cbar - to_fpm_and_back^H(cbar), cbar = dbar [* conj(lyot)]',
                       'babinet_backprop is not cbar - A^H cbar: %s' % detail, f.loc())
     calls = [n for n in walk_no_nested(f.node) if isinstance(n, ast.Call) and ast.unparse(n.func).endswith('iscomplexobj')]
@@ -299,13 +319,21 @@ def const_rules(run, db):
     E, gb = R.atom('E', real=False), R.atom('gbar', real=False)
     im = R.func('imag', [Rat(gb * E.conj())])
     want = 2 * Rat(R.atom('pi')) / (1000 * Rat(R.atom('wavelength'))) * Rat(im)
-    run.check(got is not None and got == want, 'C06.const', f.qual, norm_stmt(f.node.body[-1]), 'phase companion == (2 pi/(1000 lambda)) Im(gbar conj(E))',
+    same = got is not None and (got == want or expand_reim(R, got) == expand_reim(R, want))
+    run.check(same, 'C06.const', f.qual, norm_stmt(f.node.body[-1]), 'phase companion == (2 pi/(1000 lambda)) Im(gbar conj(E))',
               'phase companion is %s, expected %s' % (got.key() if got is not None else res[0].value, want.key()), f.loc())
-    # forward prefix for comparison
+    # the forward routine, on values: g = A exp(i k phi) with the same k, i.e. dg/dphi == i k g  (then dL/dphi = k Im(gbar conj g))
+    from ..core.interp import ClassRef
     ff = db.func(P + 'Wavefront.from_amp_and_phase')
-    src = [n for n in walk_no_nested(ff.node) if isinstance(n, ast.Assign) and ast.unparse(n.targets[0]) == 'phase_prefix']
-    if not src:
-        raise AnalysisError('from_amp_and_phase: phase_prefix not found')
+    res = returns(it.run(ff, kwargs=lambda: {'cls': ClassRef(ci), 'amplitude': dom.sym('A'), 'phase': dom.sym('phi'), 'wavelength': dom.sym('wavelength'), 'dx': dom.sym('dx')}), ff)
+    w = res[0].value
+    g = dom.rat(w.attrs.get('data')) if isinstance(w, Obj) else None
+    if g is None:
+        raise AnalysisError('from_amp_and_phase: the field it builds is outside NORM (%r)' % (w,))
+    k = 2 * Rat(R.atom('pi')) / (1000 * Rat(R.atom('wavelength')))
+    d = diff(g, 'phi', R)
+    run.check(d == Rat(R.I) * k * g, 'C06.const', ff.qual, 'forward phase prefix', 'from_amp_and_phase: d field / d phase == i (2 pi/(1000 lambda)) field',
+              'from_amp_and_phase gives %s, whose derivative in the phase is %s, not i k field with k = 2 pi/(1000 lambda) of the companion' % (g.key(), d.key()), ff.loc())
 
 
 def activation_rules(run, db):
@@ -936,11 +964,16 @@ def check(run, db, tier):
     run.rule('C06.dm', 'DM companion runs the forward stages in reverse with corresponding geometry; pad/crop guards compare one axis')
     # the transform pairs as adjoints on values: <A x, y> == <x, A^H y> for symbolic complex samples (matrix-DFT executor and the
     # fixed-sampling routines with their _backprop companions, two size pairs each, with and without a shift)
-    from .c06values import adjoint_value_rules
+    from .c06values import adjoint_value_rules, babinet_adjoint_value_rules, fd_adjoint_value_rules
     run.group(adjoint_value_rules, run, db)
+    run.babinet_on_values = run.group(babinet_adjoint_value_rules, run, db)
     for fn in (inventory_rules, matrix_rules, fixed_rules, chain_rules, babinet_bp_rules, wrapper_rules, const_rules, activation_rules, cost_rules, sum_rules, fd_rules, dm_rules, resample_adjoint_rules):
         run.group(fn, run, db)
     run.forgive('adjoint_value_rules', ['matrix_rules', 'fixed_rules'])
+    run.forgive('babinet_adjoint_value_rules', ['babinet_bp_rules', 'chain_rules'])
+    n_fd = run.group(fd_adjoint_value_rules, run, db)
+    run.forgive('fd_adjoint_value_rules', ['fd_rules'])
+    run.defer('fd_rules', 'fd_adjoint_value_rules', n_fd)
     run.require_instances('C06.matrix', 20)
     run.require_instances('C06.fixed', 16)
     run.require_instances('C06.chain', 8)
